@@ -51,6 +51,9 @@ let table : (string * (z list -> z)) list = [
   ("regular", judge_regular);
   ("sp", judge_sp);
   ("balanced", judge_balanced);
+  ("graphic", judge_graphic);
+  ("network", judge_network);
+  ("repmat", judge_repmat);
 ]
 
 let () =
